@@ -46,7 +46,9 @@ TSel      == Is("sel")      /\ InitSel(Ev.t, SeqToSet(Ev.rows)) /\ txn'[Ev.t].se
 TReserve  == Is("reserve")  /\ Reserve(Ev.t, Ev.o)
 TInsFail  == Is("insfail")  /\ InsFail(Ev.t, Ev.o)
 TWrite    == Is("w")        /\ Write(Ev.t, Ev.n, Ev.k, Ev.o, Ev.v)
-TDelete   == Is("del")      /\ Delete(Ev.t, Ev.o)
+TDelete   == Is("del")      /\ Delete(Ev.t, Ev.o) /\ txn[Ev.t].setup /\ Ev.o \in txn[Ev.t].sel
+\* DeleteAt refuses exactly the offsets that are not in the transaction's selection
+TDelMiss  == Is("delmiss")  /\ UNCHANGED vars /\ txn[Ev.t].pc = "body" /\ txn[Ev.t].setup /\ Ev.o \notin txn[Ev.t].sel
 TRollback == Is("rollback") /\ Rollback(Ev.t)
 TCommitStart == Is("commitstart") /\ CommitStart(Ev.t)
 
@@ -143,7 +145,7 @@ Diag == IF Ev.e = "dump" THEN DumpDiag ELSE IF Ev.e = "apply" THEN ApplyDiag ELS
 
 TNext == \/ TReset \/ TCreateCol \/ TCreateIdx \/ TDropIdx \/ TCreateSort \/ TCreateTrig \/ TDropTrig \/ TTransport
          \/ TBulkIns \/ TBulkDel \/ TBulkReplay
-         \/ TBegin \/ TSel \/ TReserve \/ TInsFail \/ TWrite \/ TDelete \/ TRollback \/ TCommitStart
+         \/ TBegin \/ TSel \/ TReserve \/ TInsFail \/ TWrite \/ TDelete \/ TDelMiss \/ TRollback \/ TCommitStart
          \/ TApply \/ TAfter \/ TReplay \/ TRead \/ TDump
 TSpec == TInit /\ [][TNext]_tvars
 
